@@ -1,18 +1,20 @@
 #!/bin/bash
-# Apply each seeded change under /verif/seeded/<id>/patch.diff to /repo, run that property's quick check, undo the change.
-# Usage: tools/run_seeded.sh [ids...]   (never run concurrently with other checks: it edits /repo's working tree)
+# Run each seeded change under /verif/seeded/<id>/patch.diff through that property's quick check.  The change is applied to a
+# scratch worktree of /repo (removed afterwards); /repo itself is never touched and the check is pointed at the worktree with
+# NFLOWS_REPO.  Usage: tools/run_seeded.sh [ids...]
 cd "$(dirname "$0")/.." || exit 2
 ids=("$@"); [ ${#ids[@]} -eq 0 ] && ids=($(ls seeded | grep '^C'))
-if [ -n "$(git -C /repo status --porcelain --untracked-files=no)" ]; then echo "/repo has local changes; refusing"; exit 2; fi
+wt=$(mktemp -d /tmp/seedwt.XXXXXX); rmdir "$wt"
+git -C /repo worktree add --detach -f "$wt" HEAD >/dev/null 2>&1 || { echo "cannot create worktree"; exit 2; }
+trap 'git -C /repo worktree remove --force "$wt" >/dev/null 2>&1; git -C /repo worktree prune' EXIT
 mkdir -p seeded/_results
 for id in "${ids[@]}"; do
   pid=${id%%-*}
-  git -C /repo apply "$PWD/seeded/$id/patch.diff" || { echo "$id: patch does not apply"; continue; }
-  ./check "$pid" quick > "seeded/_results/$id.out" 2>&1; rc=$?
-  git -C /repo checkout -- .
+  git -C "$wt" checkout -q -- . ; git -C "$wt" clean -fdq
+  git -C "$wt" apply "$PWD/seeded/$id/patch.diff" || { echo "$id: patch does not apply"; continue; }
+  NFLOWS_REPO="$wt" ./check "$pid" quick > "seeded/_results/$id.out" 2>&1; rc=$?
   nviol=$(grep -c '^VIOLATION' "seeded/_results/$id.out")
   nowit=$(grep -c 'no-failing-input-found' "seeded/_results/$id.out")
   obl=$(grep -o 'obligations [0-9]*/[0-9]*' "seeded/_results/$id.out" | tail -1)
   echo "$id: exit=$rc violations=$nviol (without failing input: $nowit) $obl"
 done
-git -C /repo status --porcelain --untracked-files=no
